@@ -564,6 +564,22 @@ def r13_6(ctx):
         elif ps.startswith("Array(") or ps.startswith("Object("):
             ok = ".all(" in bs and "is_constant(" in bs
             why = "conjunction over the elements"
+            # the element test may be a named local function handed to `.all(..)`: read its body in place of the closure's
+            helper_bodies = []
+            for x in walk(a["body"]):
+                if x.get("k") == "MethodCall" and x["method"] == "all" and x["args"]:
+                    fv = strip_transparent(x["args"][0])
+                    if fv.get("k") == "Path" and (fv.get("res") or {}).get("r") == "def" and fv["res"].get("path"):
+                        hb2 = [b for b in ctx.facts.hir if b["crate"] == ic["crate"] and b["path"] == fv["res"]["path"]]
+                        if hb2:
+                            helper_bodies.append(hb2[0]["body"])
+            if helper_bodies and ".all(" in bs:
+                from .c02 import _leaves as _lv
+                hb_txt = " ".join(expr_str(b_) for b_ in helper_bodies)
+                ok = "is_constant(" in hb_txt and all(any(expr_str(l) == "False" for l in _lv(b_)) for b_ in helper_bodies)
+                bs = bs + " where " + hb_txt
+                if not ok:
+                    why = "the element test handed to .all(..) does not recurse into is_constant or classifies no element form dynamic"
             # ... over *all* of them: nothing may be filtered out before the conjunction, and what is not a plain element / property is dynamic
             skipping = [x["method"] for x in walk(a["body"]) if x.get("k") == "MethodCall" and x["method"] in
                         ("filter", "filter_map", "flat_map", "flatten", "skip", "skip_while", "take", "take_while", "step_by", "map_while")]
